@@ -103,6 +103,33 @@ func runC20(c *Ctx) {
 						if u, ok := recv.(*ssa.UnOp); ok && fieldOf(u.X) != nil && vname(fieldOf(u.X)) == "r" {
 							okRecv = true
 						}
+						// a helper that is handed the source: judged at every call site of the helper
+						if pr, ok := recv.(*ssa.Parameter); ok && !isExportedFn(f) {
+							idx := -1
+							for i, q := range f.Params {
+								if q == pr {
+									idx = i
+								}
+							}
+							nSites, allOK := 0, idx >= 0
+							for _, h := range P.PkgFuncs(pk) {
+								if P.InTestFile(h) {
+									continue
+								}
+								for _, hc := range callsIn(h) {
+									g := staticCallee(hc.Common())
+									if g == nil || (g != f && g.Origin() != f && (f.Origin() == nil || g.Origin() != f.Origin())) || idx >= len(hc.Common().Args) {
+										continue
+									}
+									nSites++
+									a := hc.Common().Args[idx]
+									if u, ok := a.(*ssa.UnOp); !ok || fieldOf(u.X) == nil || vname(fieldOf(u.X)) != "r" {
+										allOK = false
+									}
+								}
+							}
+							okRecv = allOK && nSites > 0
+						}
 						c.Check(okRecv, "C20.seeded", fnName(f), "draw "+Expr(recv)+"."+cal.Name(), P.Pos(ci.Pos()), "receiver must be the generator's own seeded *rand.Rand")
 					case pp == "time" && cal.Name() == "Now" && pk == "testing/fake/queue":
 						okEdge := false
